@@ -6,7 +6,7 @@ package canary
 // Comment-only file: it adds nothing to any build.
 //
 // Object invariant of a started Canary: frames only arrive through a configured interface.
-//@ spec canaryOK(c *Canary) bool = len(c.networkInterfaces) >= 1
+//@ spec canaryOK(c *Canary) bool = len(c.networkInterfaces) >= 1 && !c.doARP
 //
 // Every connection state in the table was made by NewState from a parsed IPv4 header, so its
 // addresses are in the 16-byte form (the checksum code indexes bytes 12..15).
@@ -91,4 +91,35 @@ package canary
 //@   check safety
 //@   requires canaryOK(c) && ctableOK(c) && is4(iph.Src) && is4(iph.Dst) && len(iph.Src) == 16 && len(iph.Dst) == 16
 //@   ensures ctableOK(c)
-//@   modifies *
+//@   check frame
+//@   modifies c.stateTable, type(State)
+//
+// ARP handling is switched by an unexported field that no configuration can set (canaryOK says
+// it is off); the handler is outside the property and its frame is trusted, not verified.
+//@ func (*Canary).handleARP
+//@   trusted
+//@   requires c.doARP
+//@   modifies nothing
+//
+//@ func (*Canary).transmit
+//@   check safety
+//@   requires canaryOK(c)
+//@   modifies nothing
+//
+// The receive loop: everything that runs per frame on the raw listener's goroutine.
+//@ func (*Canary).Start$2
+//@   check safety
+//@   requires canaryOK(c) && ctableOK(c)
+//@   modifies c.stateTable, type(State)
+//@   loop 1: invariant canaryOK(c) && ctableOK(c)
+//@   loop 2: invariant canaryOK(c) && ctableOK(c)
+//
+// Per-datagram and per-connection goroutines: a panic inside them is confined by their first defer.
+//@ func (*Canary).handleUDP$1
+//@   noescape
+//@ func (*Canary).handleUDP$1$1
+//@   check safety
+//@ func (*Canary).handleTCP$1
+//@   noescape
+//@ func (*Canary).handleTCP$1$1
+//@   check safety
